@@ -194,6 +194,27 @@ theorem insert_of_lookup {k : Path} {v : α} (w : α) {d : List (Path × α)}
       simp only [keys, List.map_cons, List.mem_cons, not_or]
       exact ⟨fun e => hq e.symm, h2⟩
 
+theorem mem_insert {k : Path} {v : α} {d : List (Path × α)} {e : Path × α}
+    (h : e ∈ insert k v d) : e = (k, v) ∨ e ∈ d := by
+  induction d with
+  | nil => simp only [insert, List.mem_singleton] at h; exact Or.inl h
+  | cons x d ih =>
+    obtain ⟨q, w⟩ := x
+    by_cases hq : q = k
+    · simp only [insert, hq, ↓reduceIte, List.mem_cons] at h
+      rcases h with h | h
+      · exact Or.inl h
+      · exact Or.inr (List.mem_cons_of_mem _ h)
+    · simp only [insert, hq, ↓reduceIte, List.mem_cons] at h
+      rcases h with h | h
+      · exact Or.inr (h ▸ List.mem_cons_self)
+      · rcases ih h with h | h
+        · exact Or.inl h
+        · exact Or.inr (List.mem_cons_of_mem _ h)
+
+theorem mem_of_mem_erase {k : Path} {d : List (Path × α)} {e : Path × α}
+    (h : e ∈ erase k d) : e ∈ d := (List.mem_filter.mp h).1
+
 end dict
 
 -- prefixes and the longest-prefix search ---------------------------------------------------
